@@ -1,7 +1,10 @@
 (* C07 — the reader only ever sees its input through successive calls of the
    token decoder.  If a script [describes] what the decoder returns on an input,
    the reader over the real decoder and the reader over the scripted decoder
-   return the same results.  All later theorems are proved about scripts. *)
+   return the same results.  A script may end with [SStop] = "nothing is known
+   about the decoder beyond this point"; then the two runs agree as long as the
+   scripted run does not ask for more (it reports [EUnknown] when it does).
+   All later theorems are proved about scripts. *)
 From Coq Require Import List ZArith NArith Bool Lia.
 Import ListNotations.
 Require Import BS.C07.Model BS.C07.Script.
@@ -14,6 +17,7 @@ Variable cdec : Sess -> list Z -> list Z * Sess.
 Variable cf : cfg.
 
 Inductive describes : St -> list N -> dscript -> Prop :=
+| desc_stop st inp : describes st inp ([], SStop)
 | desc_fail st inp term :
     dec_tok st inp = fail_of St term -> describes st inp ([], term)
 | desc_ok st inp t used st' rest term :
@@ -33,14 +37,17 @@ Definition sim_tres (a : tres St Sess) (b : tres dscript Sess) : Prop :=
   | _, _ => False
   end.
 
-Lemma rd_tok_sim r r' : sim r r' -> sim_tres (rd_tok St dec_tok Sess r) (rd_tok dscript dec_script Sess r').
+Lemma rd_tok_sim r r' : sim r r' ->
+  rd_tok dscript dec_script Sess r' = TokStop
+  \/ sim_tres (rd_tok St dec_tok Sess r) (rd_tok dscript dec_script Sess r').
 Proof.
   intros (Hi & Hs & Hc & Hsc & Hb & He & Hd).
   unfold rd_tok, dec_script.
   remember (rst r) as st eqn:Est. remember (rinp r) as inp eqn:Einp. remember (rst r') as sc eqn:Esc.
-  destruct Hd as [st inp term E | st inp t used st' rest term E D]; rewrite E; simpl.
-  - destruct term; simpl; exact I.
-  - split; [reflexivity|].
+  destruct Hd as [st inp | st inp term E | st inp t used st' rest term E D]; simpl.
+  - left. reflexivity.
+  - right. rewrite E. destruct term; simpl; exact I.
+  - right. rewrite E. simpl. split; [reflexivity|].
     unfold sim; simpl. rewrite <- Hi, Hc. repeat split; assumption.
 Qed.
 
@@ -58,81 +65,88 @@ Definition sim_df (a : dfres St Sess) (b : dfres dscript Sess) : Prop :=
   | _, _ => False
   end.
 
-Lemma raw_err_sim a b : sim_tres a b -> raw_err St Sess a = raw_err dscript Sess b.
-Proof. destruct a, b; simpl; intro H; try contradiction; reflexivity. Qed.
-
+(* both token reads, resolved: either the script stopped, or the same outcome on both sides *)
 Ltac tok_cases r r' H :=
   let T := fresh "T" in
-  pose proof (rd_tok_sim r r' H) as T;
-  destruct (rd_tok St dec_tok Sess r) as [? ?| | | |], (rd_tok dscript dec_script Sess r') as [? ?| | | |];
-  simpl in T; try contradiction; try reflexivity.
+  let E := fresh "Estop" in
+  destruct (rd_tok_sim r r' H) as [E|T];
+  [ rewrite E; simpl; try (left; reflexivity)
+  | destruct (rd_tok St dec_tok Sess r) as [? ?| | | |], (rd_tok dscript dec_script Sess r') as [? ?| | | |];
+    simpl in T; try contradiction; try (right; reflexivity); try (left; reflexivity) ].
 
 Lemma dec_vals_sim view : forall r r', sim r r' ->
-  sim_dc (dec_vals St dec_tok Sess cdec r view) (dec_vals dscript dec_script Sess cdec r' view).
+  dec_vals dscript dec_script Sess cdec r' view = DcErr EUnknown
+  \/ sim_dc (dec_vals St dec_tok Sess cdec r view) (dec_vals dscript dec_script Sess cdec r' view).
 Proof.
   induction view as [|v rest IH]; intros r r' H; simpl.
-  - split; [reflexivity|exact H].
+  - right. split; [reflexivity|exact H].
   - tok_cases r r' H.
     destruct T as [<- S1].
-    destruct t; simpl; try reflexivity.
+    destruct t; simpl; try (right; reflexivity).
     destruct S1 as (Hi & Hs & Hc & Hsc & Hb & He & Hd).
     rewrite <- Hs. destruct (cdec (rsess r0) v0) as [x s'].
-    match goal with |- sim_dc (match dec_vals _ _ _ _ ?a _ with _ => _ end)
-                              (match dec_vals _ _ _ _ ?b _ with _ => _ end) =>
+    match goal with |- _ \/ sim_dc (match dec_vals _ _ _ _ ?a _ with _ => _ end)
+                                   (match dec_vals _ _ _ _ ?b _ with _ => _ end) =>
       assert (S2 : sim a b) by (unfold sim; simpl; repeat split; assumption);
-      specialize (IH a b S2);
-      destruct (dec_vals St dec_tok Sess cdec a rest), (dec_vals dscript dec_script Sess cdec b rest)
-    end; simpl in IH |- *; try contradiction.
-    + destruct IH as [-> S3]. split; [reflexivity|exact S3].
-    + exact IH.
+      destruct (IH a b S2) as [IHs|IHs];
+      [ rewrite IHs; left; reflexivity
+      | destruct (dec_vals St dec_tok Sess cdec a rest), (dec_vals dscript dec_script Sess cdec b rest) ]
+    end; simpl in IHs |- *; try contradiction.
+    + right. destruct IHs as [-> S3]. split; [reflexivity|exact S3].
+    + right. exact IHs.
 Qed.
 
 Lemma dec_col_sim k view r r' : sim r r' ->
-  sim_dc (dec_col St dec_tok Sess cdec cf r k view) (dec_col dscript dec_script Sess cdec cf r' k view).
+  dec_col dscript dec_script Sess cdec cf r' k view = DcErr EUnknown
+  \/ sim_dc (dec_col St dec_tok Sess cdec cf r k view) (dec_col dscript dec_script Sess cdec cf r' k view).
 Proof.
   intro H. unfold dec_col. tok_cases r r' H.
-  destruct T as [<- S1]. destruct t; simpl; try reflexivity.
+  destruct T as [<- S1]. destruct t; simpl; try (right; reflexivity).
   destruct b.
-  - destruct k; simpl; try reflexivity. apply dec_vals_sim. exact S1.
+  - destruct k; simpl; try (right; reflexivity). apply dec_vals_sim. exact S1.
   - tok_cases r0 r1 S1.
-    destruct T as [<- S2]. destruct t; simpl; try reflexivity.
+    destruct T as [<- S2]. destruct t; simpl; try (right; reflexivity).
+    right. destruct (fix_collen cf && negb (Nat.eqb (length data) (length view))); simpl; [reflexivity|].
     split; [reflexivity|exact S2].
 Qed.
 
 Lemma dec_cols_sim sch : forall mem r r', sim r r' ->
-  sim_df (dec_cols St dec_tok Sess cdec cf r sch mem) (dec_cols dscript dec_script Sess cdec cf r' sch mem).
+  dec_cols dscript dec_script Sess cdec cf r' sch mem = DfErr EUnknown
+  \/ sim_df (dec_cols St dec_tok Sess cdec cf r sch mem) (dec_cols dscript dec_script Sess cdec cf r' sch mem).
 Proof.
   induction sch as [|k ks IH]; intros mem r r' H; simpl.
-  - split; [reflexivity|exact H].
-  - destruct mem as [|view rest]; [split; [reflexivity|exact H]|].
-    pose proof (dec_col_sim k view r r' H) as C.
+  - right. split; [reflexivity|exact H].
+  - destruct mem as [|view rest]; [right; split; [reflexivity|exact H]|].
+    destruct (dec_col_sim k view r r' H) as [C|C]; [rewrite C; left; reflexivity|].
     destruct (dec_col St dec_tok Sess cdec cf r k view), (dec_col dscript dec_script Sess cdec cf r' k view);
       simpl in C; try contradiction.
-    + destruct C as [<- S1]. specialize (IH rest r0 r1 S1).
+    + destruct C as [<- S1].
+      destruct (IH rest r0 r1 S1) as [IHs|IHs]; [rewrite IHs; left; reflexivity|].
       destruct (dec_cols St dec_tok Sess cdec cf r0 ks rest), (dec_cols dscript dec_script Sess cdec cf r1 ks rest);
-        simpl in IH |- *; try contradiction.
-      * destruct IH as [<- S2]. split; [reflexivity|exact S2].
-      * exact IH.
-    + exact C.
+        simpl in IHs |- *; try contradiction.
+      * right. destruct IHs as [<- S2]. split; [reflexivity|exact S2].
+      * right. exact IHs.
+    + right. exact C.
 Qed.
 
 Lemma decode_sim sch mem r r' : sim r r' ->
-  sim_df (decode St dec_tok Sess cdec cf r sch mem) (decode dscript dec_script Sess cdec cf r' sch mem).
+  decode dscript dec_script Sess cdec cf r' sch mem = DfErr EUnknown
+  \/ sim_df (decode St dec_tok Sess cdec cf r sch mem) (decode dscript dec_script Sess cdec cf r' sch mem).
 Proof.
   intro H. unfold decode.
-  pose proof (dec_cols_sim sch (fzero mem) r r' H) as C.
+  destruct (dec_cols_sim sch (fzero mem) r r' H) as [C|C]; [rewrite C; left; reflexivity|].
   destruct (dec_cols St dec_tok Sess cdec cf r sch (fzero mem)),
            (dec_cols dscript dec_script Sess cdec cf r' sch (fzero mem)); simpl in C; try contradiction.
   - destruct C as [<- S1].
     assert (Ec : rcrc r0 = rcrc r1) by (destruct S1 as (_ & _ & Hc & _); exact Hc).
     tok_cases r0 r1 S1.
-    destruct T as [<- S2]. destruct t; simpl; try reflexivity.
-    rewrite Ec. destruct (N.eqb (rcrc r1) c); simpl; [split; [reflexivity|exact S2]|reflexivity].
-  - exact C.
+    destruct T as [<- S2]. destruct t; simpl; try (right; reflexivity).
+    right. rewrite Ec. destruct (N.eqb (rcrc r1) c); simpl; [split; [reflexivity|exact S2]|reflexivity].
+  - right. exact C.
 Qed.
 
 Definition sim_read (a : rres * rstate St Sess) (b : rres * rstate dscript Sess) : Prop :=
-  fst a = fst b /\ sim (snd a) (snd b).
+  fst b = RErr EUnknown \/ (fst a = fst b /\ sim (snd a) (snd b)).
 
 Lemma set_err_sim r r' e : sim r r' -> sim (set_err St Sess r e) (set_err dscript Sess r' e).
 Proof.
@@ -142,7 +156,7 @@ Qed.
 Lemma copy_out_sim r r' dest : sim r r' ->
   sim_read (copy_out St Sess r dest) (copy_out dscript Sess r' dest).
 Proof.
-  intros (Hi & Hs & Hc & Hsc & Hb & He & Hd). unfold sim_read, copy_out, sim; simpl.
+  intros (Hi & Hs & Hc & Hsc & Hb & He & Hd). right. unfold copy_out, sim; simpl.
   rewrite Hb. repeat split; assumption.
 Qed.
 
@@ -151,54 +165,63 @@ Lemma read_sim sch r r' dest : sim r r' ->
 Proof.
   intro H. pose proof H as (Hi & Hs & Hc & Hsc & Hb & He & Hd).
   unfold read. rewrite <- He. destruct (rerr r) as [e|].
-  - split; [reflexivity|exact H].
+  - right. split; [reflexivity|exact H].
   - rewrite <- Hb. destruct (Nat.eqb (flen (rbuf r)) 0); [|apply copy_out_sim; exact H].
     match goal with |- sim_read (match rd_tok _ _ _ ?a with _ => _ end) (match rd_tok _ _ _ ?b with _ => _ end) =>
       assert (S0 : sim a b) by (unfold sim; simpl; repeat split; assumption);
       set (r0 := a) in *; set (r0' := b) in *
     end.
-    assert (Ei : rinp r0 = rinp r0') by exact Hi.
-    tok_cases r0 r0' S0; try (split; [reflexivity|apply set_err_sim; exact S0]).
-    + destruct T as [<- S1]. destruct t; simpl; try (split; [reflexivity|apply set_err_sim; exact S0]).
+    destruct (rd_tok_sim r0 r0' S0) as [Estop|T]; [rewrite Estop; left; reflexivity|].
+    destruct (rd_tok St dec_tok Sess r0) as [? ?| | | |], (rd_tok dscript dec_script Sess r0') as [? ?| | | |];
+      simpl in T; try contradiction; try (right; split; [reflexivity|apply set_err_sim; exact S0]).
+    + destruct T as [<- S1].
+      destruct t; simpl; try (right; split; [reflexivity|apply set_err_sim; exact S0]).
       pose proof S1 as (Hi1 & Hs1 & Hc1 & Hsc1 & Hb1 & He1 & Hd1).
+      destruct (fix_len cf && Z.ltb n 0); [right; split; [reflexivity|apply set_err_sim; exact S1]|].
       destruct (Z.leb n (Z.of_nat (flen dest))).
-      * destruct (Z.ltb n 0).
-        { destruct (fix_len cf); (split; [reflexivity|]); [apply set_err_sim; exact S1|exact S1]. }
-        pose proof (decode_sim sch (ftake (Z.to_nat n) dest) r1 r2 S1) as D.
+      * destruct (Z.ltb n 0); [right; split; [reflexivity|exact S1]|].
+        destruct (decode_sim sch (ftake (Z.to_nat n) dest) r1 r2 S1) as [D|D]; [rewrite D; left; reflexivity|].
         destruct (decode St dec_tok Sess cdec cf r1 sch (ftake (Z.to_nat n) dest)),
                  (decode dscript dec_script Sess cdec cf r2 sch (ftake (Z.to_nat n) dest));
           simpl in D; try contradiction.
-        { destruct D as [<- S2]. split; [reflexivity|exact S2]. }
-        { subst e0. split; [reflexivity|apply set_err_sim; exact S1]. }
+        { destruct D as [<- S2]. right. split; [reflexivity|exact S2]. }
+        { subst e0. right. split; [reflexivity|apply set_err_sim; exact S1]. }
       * rewrite <- Hsc1.
         set (mem := ensure sch (rscratch r1) (Z.to_nat n)).
-        pose proof (decode_sim sch (ftake (Z.to_nat n) mem) r1 r2 S1) as D.
+        destruct (decode_sim sch (ftake (Z.to_nat n) mem) r1 r2 S1) as [D|D]; [rewrite D; left; reflexivity|].
         destruct (decode St dec_tok Sess cdec cf r1 sch (ftake (Z.to_nat n) mem)),
                  (decode dscript dec_script Sess cdec cf r2 sch (ftake (Z.to_nat n) mem));
           simpl in D; try contradiction.
         { destruct D as [<- S2]. apply copy_out_sim.
           destruct S2 as (Hi2 & Hs2 & Hc2 & Hsc2 & Hb2 & He2 & Hd2).
           unfold sim; simpl. repeat split; assumption. }
-        { subst e0. split; [reflexivity|apply set_err_sim; exact S1]. }
-    + simpl. rewrite <- Hi. split; [reflexivity|apply set_err_sim; exact S0].
+        { subst e0. right. split; [reflexivity|apply set_err_sim; exact S1]. }
+    + simpl. rewrite <- Hi. right. split; [reflexivity|apply set_err_sim; exact S0].
 Qed.
 
 Lemma reads_sim sch dests : forall r r', sim r r' ->
+  ~ In (RErr EUnknown) (reads dscript dec_script Sess cdec cf sch r' dests) ->
   reads St dec_tok Sess cdec cf sch r dests = reads dscript dec_script Sess cdec cf sch r' dests.
 Proof.
-  induction dests as [|d ds IH]; intros r r' H; simpl; [reflexivity|].
-  pose proof (read_sim sch r r' d H) as [E S1].
-  destruct (read St dec_tok Sess cdec cf sch r d) as [res r1],
-           (read dscript dec_script Sess cdec cf sch r' d) as [res' r1']. simpl in E, S1. subst res'.
-  destruct res; try reflexivity; f_equal; apply IH; exact S1.
+  induction dests as [|d ds IH]; intros r r' H Hno; simpl; [reflexivity|].
+  simpl in Hno.
+  destruct (read_sim sch r r' d H) as [Eu|[E S1]].
+  - exfalso. apply Hno.
+    destruct (read dscript dec_script Sess cdec cf sch r' d) as [res' r1']. simpl in Eu. subst res'.
+    left. reflexivity.
+  - destruct (read St dec_tok Sess cdec cf sch r d) as [res r1],
+             (read dscript dec_script Sess cdec cf sch r' d) as [res' r1']. simpl in E, S1. subst res'.
+    destruct res; try reflexivity; f_equal; apply IH; try exact S1;
+      intro Hin; apply Hno; right; exact Hin.
 Qed.
 
 Theorem reads_described sch st0 s0 inp sc dests :
   describes st0 inp sc ->
+  ~ In (RErr EUnknown) (reads dscript dec_script Sess cdec cf sch (r_init dscript Sess inp sc s0) dests) ->
   reads St dec_tok Sess cdec cf sch (r_init St Sess inp st0 s0) dests
   = reads dscript dec_script Sess cdec cf sch (r_init dscript Sess inp sc s0) dests.
 Proof.
-  intro D. apply reads_sim. unfold sim, r_init; simpl. repeat split; try reflexivity. exact D.
+  intros D Hno. apply reads_sim; [|exact Hno]. unfold sim, r_init; simpl. repeat split; try reflexivity. exact D.
 Qed.
 
 End Sim.
